@@ -37,21 +37,20 @@ namespace celma { namespace log { namespace detail {
 ///    1.15.0, 11.10.2018
 ScopedAttribute::ScopedAttribute( const std::string& name,
    const std::string& value):
-      mAttributeName( name)
+      mAttributeId( Logging::instance().addAttribute( name, value))
 {
-
-   Logging::instance().addAttribute( name, value);
 } // ScopedAttribute::ScopedAttribute
 
 
 
-/// Destructor, removes the attribute again.
+/// Destructor, removes the attribute entry that the constructor added.
 ///
+/// @since  1.47.0, 30.09.2026  (removes its own entry)
 /// @since  1.15.0, 11.10.2018
 ScopedAttribute::~ScopedAttribute()
 {
 
-   Logging::instance().removeAttribute( mAttributeName);
+   Logging::instance().removeAttributeEntry( mAttributeId);
 
 } // ScopedAttribute::~ScopedAttribute
 
